@@ -620,10 +620,12 @@ def main(chk: core.Check) -> int:
     chk.extra["trial_id_sites"] = {"n": len(t["sites"]), "non_storage_arg": [s for s in t["sites"] if s["kind"] != "storageArg"],
                                    "reseed_sampler_rng_sequential": t["reseed"]}
     if not getattr(chk, "no_prove", False):
-        chk.prove()
+        chk.prove(["OptunaVerif.Props.C09", "OptunaVerif.Props.C13Tpe"])  # + split_sorted_by_number / split_halves_strictly_sorted
     try:
         core.ensure_driver()
         ga_cache_k(chk)
+        from verif.props import c13_tpe
+        c13_tpe.id_independence(chk, 300 if chk.tier == "quick" else 6000)  # real _split_trials under rewritten _trial_id's
         cells = plan(chk.rng, chk.tier)
         chk.extra["cells"] = len(cells)
         chk.planned_cells = cells  # type: ignore[attr-defined]
